@@ -52,6 +52,13 @@ EXPLANATION = (
     'chunking loop of generate_unity_files; path identity tests in the legacy Fortran scanner (samefile vs ==). '
     'Does NOT decide which strings a configure-time validation predicate rejects (validate_build_subdir narrowing `\'..\' in build_subdir` to a test on the normalised path is a value-level '
     'change of a string predicate; the collision it lets through is between two spellings of one directory, see path normalisation above). '
+    'Does NOT decide whether the inputs of one statement differ from its own outputs when both are values computed elsewhere (generate_prelink constructing its element after '
+    '`obj_list` was re-bound to the first result of get_prelink_args, which is the output name itself: a self-cycle that depends on what a compiler method returns - a value-level fact; '
+    'no rule reads the order of a construction relative to re-bindings of its argument locals). '
+    'Does NOT decide whether a memo that lets a generating function return early is keyed on everything its statements depend on (generate_genlist_for_target skipping a GeneratedList '
+    'it has seen for another consumer although the outputs live in the private directory of each consumer: which statements exist for a concrete project, i.e. existence of inputs). '
+    'The build line may be formed in NinjaBuildElement.write or in one argument-less method of the element whose result write() hands to the file; build elements may be constructed '
+    'directly or through a creation method of the backend (`return NinjaBuildElement(self.all_outputs, <parameters>)`); the registration phase of add_target may be a private method called from add_target alone; the variants NinjaRule.write loops over may come from a generator, an appended local list, a comprehension over a display of (suffix, counter) records, or a helper returning one of these; the escaping of ninja_quote may be a character-class pattern or a str.translate table; a returned dependency list may be a component of the tuple a backend method returns (R14); a `match` over a name whose cases bind nothing is read as the if/elif/else chain of the same isinstance / equality tests (other matches stay Undecided). '
     'Does NOT decide acyclicity, existence of inputs, reachability from `all` of a concrete project, whether the guard under which a '
     'rule is defined (language present, machine is AIX...) agrees with the guard under which it is used, or whether a backend utility target that is '
     'neither reserved nor guarded is acceptable (a collision is then still rejected at generation time by R1/R2, e.g. coverage-sonarqube).')
@@ -130,6 +137,57 @@ def _bound(mod: Module, c: ast.Call, qn: str, implicit_first: bool = True) -> _B
 
 def _elem_args(mod: Module, c: ast.Call) -> _Bound:
     return _bound(mod, c, f'{ELEMENT}.__init__')
+
+
+def _element_factories(mod: Module) -> T.Dict[str, ast.Call]:
+    """Creation methods of the backend: the body (after a docstring) is the one statement `return NinjaBuildElement(...)`; name -> that construction."""
+    hit = getattr(mod, '_c04_factories', None)
+    if hit is not None:
+        return hit      # type: ignore[no-any-return]
+    out: T.Dict[str, ast.Call] = {}
+    setattr(mod, '_c04_factories', out)
+    for q, f in _backend_funcs(mod).items():
+        body = [st for st in f.body if not (isinstance(st, ast.Expr) and isinstance(st.value, ast.Constant) and isinstance(st.value.value, str))]
+        if len(body) == 1 and isinstance(body[0], ast.Return) and isinstance(body[0].value, ast.Call) and _is_ctor(body[0].value, ELEMENT) \
+                and q.count('.') == 1 and not ({'staticmethod', 'classmethod'} & set(decorator_names(f))):
+            out[q.split('.')[-1]] = body[0].value
+    return out
+
+
+def _construction_args(mod: Module, c: ast.Call) -> T.Optional[_Bound]:
+    """Constructor parameter -> argument expression *at this site* for a direct `NinjaBuildElement(...)` and for a call of a creation method
+    (`self._new(outs, rule, ins)` with `def _new(self, o, r, i): return NinjaBuildElement(self.all_outputs, o, r, i)`): a constructor argument
+    that is a parameter of the creation method is the argument (or constant default) the site binds to it.  None: not a construction."""
+    if _is_ctor(c, ELEMENT):
+        return _elem_args(mod, c)
+    cn = call_name(c) or ''
+    if not (cn.startswith('self.') and cn.count('.') == 1):
+        return None
+    ctor = _element_factories(mod).get(cn[5:])
+    if ctor is None:
+        return None
+    fq = f'{BACKEND}.{cn[5:]}'
+    f = mod.func(fq)
+    site = _bound(mod, c, fq)
+    inner = _elem_args(mod, ctor)
+    if '*' in site or '**' in site or '*' in inner or '**' in inner:
+        raise Undecided(f'`{short(c, 60)}`: star arguments at a creation method of build elements')
+    qa = f.args
+    dflt = dict(zip(reversed([a_.arg for a_ in qa.posonlyargs + qa.args]), reversed(qa.defaults)))
+    dflt.update({a_.arg: d_ for a_, d_ in zip(qa.kwonlyargs, qa.kw_defaults) if d_ is not None})
+    params = set(_param_names(f))
+    out = _Bound()
+    out.call = c
+    for k, v in inner.items():
+        if isinstance(v, ast.Name) and v.id in params:
+            v2 = dict.get(site, v.id, dflt.get(v.id))
+            if v2 is not None:
+                out[k] = v2
+        elif any(isinstance(x, ast.Name) and x.id in params for x in ast.walk(v)):
+            raise Undecided(f'{fq}: constructor argument `{short(v, 50)}` is computed from a parameter of the creation method')
+        else:
+            out[k] = v
+    return out
 
 
 def _passes(mod: Module, c: ast.Call, qn: str, var: str, param_index: int = 0) -> bool:
@@ -658,8 +716,7 @@ def _flatten_concat(e: ast.AST) -> T.List[T.Union[str, ast.AST]]:
     return p
 
 
-def _build_line(info: L.FnInfo) -> T.Tuple[Node, T.List[ast.AST]]:
-    """The statement that forms the `build <outs>: rule ...` line and the expressions left of the colon."""
+def _build_line_candidates(info: L.FnInfo) -> T.List[T.Tuple[Node, ast.AST, T.List[T.Any]]]:
     found = []
     for n in info.cfg.nodes:
         if n.kind != 'stmt':
@@ -673,7 +730,42 @@ def _build_line(info: L.FnInfo) -> T.Tuple[Node, T.List[ast.AST]]:
                 if len(parts) > 1 and isinstance(parts[0], str) and parts[0].startswith('build '):
                     found.append((n, e, parts))
     # keep maximal expressions only
-    found = [f for f in found if not any(g is not f and any(x is f[1] for x in ast.walk(g[1])) for g in found)]
+    return [f for f in found if not any(g is not f and any(x is f[1] for x in ast.walk(g[1])) for g in found)]
+
+
+def _build_writer(infos: L.Infos, mod: Module) -> L.FnInfo:
+    """The function that forms the `build <outs>: rule ...` line: NinjaBuildElement.write itself, or the one argument-less method of the element
+    whose result write() hands to the file (directly or through one local).  The text of the line is then what that method returns."""
+    w = infos.get(f'{ELEMENT}.write')
+    if _build_line_candidates(w):
+        return w
+    ps = _param_names(w.fn)
+    hits: T.List[L.FnInfo] = []
+    for n in w.cfg.nodes:
+        for c in L.node_calls(n):
+            cn = call_name(c) or ''
+            if not (cn.startswith('self.') and cn.count('.') == 1 and not c.args and not c.keywords and mod.has_func(f'{ELEMENT}.{cn[5:]}')):
+                continue
+            hi = infos.get(f'{ELEMENT}.{cn[5:]}')
+            if not _build_line_candidates(hi):
+                continue
+            # the result must be what is written: an operand of a file-writing call, or one local that is
+            written = any(ps and _uses_file(fc, ps[0]) and any(x is c for a in _written_exprs(fc) for x in ast.walk(a)) for fc in L.node_calls(n))
+            if not written and isinstance(n.ast, ast.Assign) and len(n.ast.targets) == 1 and isinstance(n.ast.targets[0], ast.Name):
+                lv = n.ast.targets[0].id
+                written = any(ps and _uses_file(fc, ps[0]) and any(isinstance(x, ast.Name) and x.id == lv for a in _written_exprs(fc) for x in ast.walk(a))
+                              for m in w.cfg.nodes for fc in L.node_calls(m))
+            if not written:
+                raise Undecided(f'write(): the build line formed by `{short(c, 50)}` is not handed to the file in a form the rule reads')
+            hits.append(hi)
+    if len(hits) != 1:
+        raise Undecided(f'{ELEMENT}.write: 0 candidates for the `build ...:` line ({len(hits)} helper methods that form one)')
+    return hits[0]
+
+
+def _build_line(info: L.FnInfo) -> T.Tuple[Node, T.List[ast.AST]]:
+    """The statement that forms the `build <outs>: rule ...` line and the expressions left of the colon."""
+    found = _build_line_candidates(info)
     if len(found) != 1:
         raise Undecided(f'{info.qn}: {len(found)} candidates for the `build ...:` line')
     n, e, parts = found[0]
@@ -696,7 +788,7 @@ def _build_line(info: L.FnInfo) -> T.Tuple[Node, T.List[ast.AST]]:
 def r2d(ctx: RuleCtx) -> None:
     mod = ctx.repo.module(NB)
     infos = _infos(ctx)
-    w = infos.get(f'{ELEMENT}.write')
+    w = _build_writer(infos, mod)
     node, left = _build_line(w)
     tr = L.Tracer(w)
     emitted: T.Dict[str, str] = {}
@@ -928,7 +1020,7 @@ def r3b(ctx: RuleCtx) -> None:
     mod = ctx.repo.module(NB)
     infos = _infos(ctx)
     # 1. element.write: the suffix '_RSP' is appended to self.rulename exactly when self._should_use_rspfile
-    w = infos.get(f'{ELEMENT}.write')
+    w = _build_writer(infos, mod)
     node, _ = _build_line(w)
     # find the rule expression right of the colon: first non-literal part after the colon literal
     parts = None
@@ -1202,12 +1294,13 @@ def r4(ctx: RuleCtx) -> None:
         ctx.require(got.get(name) == want, f'aggregate {name} is fed from {want[0]}({"benchmark=" + str(want[1]) if want[1] is not None else ""})', mod, qn,
                     f'aggregate {name}', f'aggregate `{name}` is fed from {got.get(name)}; the property requires {want}', anchor_node)
     # the element: outputs = name variable, rule phony, inputs = list filled in the inner loop
-    elems = [c for c in _own_calls(info.fn) if _is_ctor(c, ELEMENT) and _elem_args(mod, c).get('outfilenames') is not None
-             and norm(_elem_args(mod, c)['outfilenames']) == nvar]
+    sites = [(c, _construction_args(mod, c)) for c in _own_calls(info.fn)]
+    elems = [c for c, a_ in sites if a_ is not None and a_.get('outfilenames') is not None and norm(a_['outfilenames']) == nvar]
     if len(elems) != 1:
         raise Undecided(f'aggregates: {len(elems)} elements named by the table variable')
     el = elems[0]
-    ea = _elem_args(mod, el)
+    ea = _construction_args(mod, el)
+    assert ea is not None
     en = info.node_of(el)
     rule_e = L.inline_locals(info, ea['rulename'], en) if 'rulename' in ea else None
     ctx.require(isinstance(rule_e, ast.Constant) and rule_e.value == 'phony', 'the aggregates are phony statements', mod, qn, el,
@@ -1891,13 +1984,52 @@ def r5(ctx: RuleCtx) -> None:
     info = L.FnInfo(im, qn, im.func(qn))
     cfg = info.cfg
     ps = _param_names(info.fn)
-    stores = [n for n in cfg.nodes if n.kind == 'stmt' and isinstance(n.ast, ast.Assign) and any(
-        isinstance(t, ast.Subscript) and attr_chain(t.value) == 'self.build.targets' for t in n.ast.targets)]
-    if len(stores) != 1:
-        raise Undecided(f'add_target: {len(stores)} stores into self.build.targets')
-    sn = stores[0]
-    key = [t for t in sn.ast.targets if isinstance(t, ast.Subscript)][0].slice  # type: ignore[union-attr]
-    ctx.require(isinstance(sn.ast.value, ast.Name) and len(ps) > 1 and sn.ast.value.id == ps[1], 'add_target stores the target object it was given', im, qn, sn.ast,  # type: ignore[union-attr]
+    def stores_of(c_: T.Any) -> T.List[Node]:
+        return [n for n in c_.nodes if n.kind == 'stmt' and isinstance(n.ast, ast.Assign) and any(
+            isinstance(t, ast.Subscript) and attr_chain(t.value) == 'self.build.targets' for t in n.ast.targets)]
+    stores = stores_of(cfg)
+    store_fn = qn
+    if not stores:
+        # the registration phase may be a private method of the interpreter called from add_target alone: the call stands for the store
+        # (value and key are the helper's, with its parameters replaced by the arguments of the call)
+        phases = []
+        for n in cfg.nodes:
+            for c in L.node_calls(n):
+                cn_ = call_name(c) or ''
+                if cn_.startswith('self.') and cn_.count('.') == 1 and im.has_func(f'Interpreter.{cn_[5:]}'):
+                    hs = stores_of(L.FnInfo(im, f'Interpreter.{cn_[5:]}', im.func(f'Interpreter.{cn_[5:]}')).cfg)
+                    if hs:
+                        phases.append((n, c, f'Interpreter.{cn_[5:]}', hs))
+        if len(phases) != 1 or len(phases[0][3]) != 1 or phases[0][0].kind != 'stmt':
+            raise Undecided(f'add_target: 0 stores into self.build.targets ({len(phases)} helper calls that store)')
+        sn, pc, store_fn, (hst,) = phases[0]
+        pb = _bound(im, pc, store_fn)
+        if '*' in pb or '**' in pb:
+            raise Undecided(f'add_target: `{short(pc, 60)}` passes star arguments to the registration helper')
+        hps = set(_param_names(im.func(store_fn)))
+        if any(isinstance(x, ast.Name) and isinstance(x.ctx, ast.Store) and x.id in hps for x in ast.walk(im.func(store_fn))):
+            raise Undecided(f'{store_fn}: a parameter of the registration helper is re-bound')
+        others_ = [q_ for q_, f_ in im.funcs().items() for c in _own_calls(f_) if call_method(c) == store_fn.split('.')[-1] and c is not pc]
+        if others_:
+            raise Undecided(f'{store_fn}: the registration helper is also called from {others_[:3]}')
+
+        class Sub(ast.NodeTransformer):
+            def visit_Name(self, n_: ast.Name) -> ast.AST:
+                return copy.deepcopy(pb[n_.id]) if n_.id in pb and isinstance(n_.ctx, ast.Load) else n_
+        h_assign = T.cast(ast.Assign, hst.ast)
+        h_info = L.FnInfo(im, store_fn, im.func(store_fn))
+        key = Sub().visit(copy.deepcopy(L.inline_locals(h_info, [t for t in h_assign.targets if isinstance(t, ast.Subscript)][0].slice, hst)))
+        value = Sub().visit(copy.deepcopy(L.inline_locals(h_info, h_assign.value, hst)))
+        store_ast: ast.AST = ast.fix_missing_locations(ast.copy_location(ast.Assign(targets=[ast.Subscript(
+            value=ast.parse('self.build.targets', mode='eval').body, slice=key, ctx=ast.Store())], value=value), sn.ast))
+    else:
+        if len(stores) != 1:
+            raise Undecided(f'add_target: {len(stores)} stores into self.build.targets')
+        sn = stores[0]
+        store_ast = sn.ast
+        key = [t for t in sn.ast.targets if isinstance(t, ast.Subscript)][0].slice  # type: ignore[union-attr]
+        value = sn.ast.value  # type: ignore[union-attr]
+    ctx.require(isinstance(value, ast.Name) and len(ps) > 1 and value.id == ps[1], 'add_target stores the target object it was given', im, qn, store_ast,
                 'the value stored in self.build.targets is not the target parameter', sn.ast)
     val = [n for n in cfg.nodes if any(call_name(c) == 'self.validate_forbidden_targets' and _passes(im, c, 'Interpreter.validate_forbidden_targets', ps[0])
                                        for c in L.node_calls(n))]
@@ -1957,8 +2089,8 @@ def r5(ctx: RuleCtx) -> None:
                     (attr_chain(node.func.value) or '').endswith('build.targets'):
                 writers.append(f'{rel}:{m2.enclosing_func(node)}')
     ctx.floor('writers of build.targets found by the scan', len(writers), 1)
-    ctx.require(writers == [f'{INTERP}:{qn}'], 'build.targets is written only by Interpreter.add_target', im, qn, 'writers of build.targets',
-                f'build.targets is also written by {[w for w in writers if w != f"{INTERP}:{qn}"]}, bypassing the name checks')
+    ctx.require(writers == [f'{INTERP}:{store_fn}'], 'build.targets is written only by Interpreter.add_target', im, qn, 'writers of build.targets',
+                f'build.targets is also written by {[w for w in writers if w != f"{INTERP}:{store_fn}"]}, bypassing the name checks')
 
     # validate_forbidden_targets: decision table
     vq = 'Interpreter.validate_forbidden_targets'
@@ -1978,11 +2110,11 @@ def r5(ctx: RuleCtx) -> None:
     mod = ctx.repo.module(NB)
     infos = _infos(ctx)
     cp = infos.get(f'{BACKEND}.create_phony_target')
-    ctors = [c for c in _own_calls(cp.fn) if _is_ctor(c, ELEMENT)]
+    ctors = [(c, a_) for c in _own_calls(cp.fn) for a_ in [_construction_args(mod, c)] if a_ is not None]
     cps = _param_names(cp.fn)
     prefixes = set()
-    for c in ctors:
-        for arg in (_elem_args(mod, c).get('outfilenames'), _elem_args(mod, c).get('infilenames')):
+    for c, ca in ctors:
+        for arg in (ca.get('outfilenames'), ca.get('infilenames')):
             if arg is None:
                 continue
             parts = L.template_parts(L.inline_locals(cp, arg, cp.node_of(c)))
@@ -2057,8 +2189,8 @@ def r5(ctx: RuleCtx) -> None:
             name_e = None
             if call_name(c) == 'self.create_phony_target':
                 name_e = _bound(mod, c, f'{BACKEND}.create_phony_target').get(_param_names(mod.func(f'{BACKEND}.create_phony_target'))[0])
-            elif _is_ctor(c, ELEMENT):
-                oe = _elem_args(mod, c).get('outfilenames')
+            elif _construction_args(mod, c) is not None:
+                oe = _construction_args(mod, c).get('outfilenames')  # type: ignore[union-attr]
                 if isinstance(oe, ast.Constant) and isinstance(oe.value, str):
                     name_e = oe
             if name_e is None:
@@ -2434,12 +2566,25 @@ def r7(ctx: RuleCtx) -> None:
 # ----------------------------------------------------------------------------
 # R8  every separator of the build line is escaped (or rejected) by the quoting applied to paths (K11 / K5 writer-quoter agreement)
 # ----------------------------------------------------------------------------
+class _EscapeTable(T.NamedTuple):
+    """The escaping of a quoter given as a str.translate table instead of a pattern: `pattern` is the table itself (hashable, printable)."""
+    chars: T.FrozenSet[str]
+
+    @property
+    def pattern(self) -> '_EscapeTable':
+        return self
+
+    def __repr__(self) -> str:
+        return 'translate table escaping ' + repr(''.join(sorted(self.chars)))
+
+
 def r8(ctx: RuleCtx) -> None:
     from .. import rx
     from ..consteval import fold_expr, Regex
     mod = ctx.repo.module(NB)
     infos = _infos(ctx)
-    w = infos.get(f'{ELEMENT}.write')
+    w = _build_writer(infos, mod)
+    in_write = w.qn == f'{ELEMENT}.write'
     ps = _param_names(w.fn)
     node, _left = _build_line(w)
     # the variable that holds the build line, and every constant text that is put between the quoted paths
@@ -2450,6 +2595,7 @@ def r8(ctx: RuleCtx) -> None:
         raise Undecided('write(): the build line is not first bound to a local')
     consts: T.List[str] = []
     quoter = None
+    joined_at: T.Optional[Node] = None
     trw = L.Tracer(w)
 
     def harvest(e: ast.AST, at: Node, depth: int = 0, fi: T.Optional[L.FnInfo] = None) -> None:
@@ -2520,18 +2666,30 @@ def r8(ctx: RuleCtx) -> None:
         pieces: T.List[T.Tuple[Node, T.Optional[ast.AST]]] = [(node, e_) for e_ in node.ast.value.elts] + [(n_, a_) for n_, c_, a_ in w.additions(lv)]
         if any(a_ is None or isinstance(a_, ast.Starred) for _, a_ in pieces):
             raise Undecided(f'write(): pieces are added to `{lv}` in a form the rule does not itemise')
+        def join_of(v: ast.AST) -> T.Optional[ast.Call]:
+            """`SEP.join(<pieces>)`, possibly the receiver of a chain of method calls that rewrite the whole text (`.replace(..)`)"""
+            while isinstance(v, ast.Call) and isinstance(v.func, ast.Attribute):
+                if v.func.attr == 'join' and isinstance(v.func.value, ast.Constant) and len(v.args) == 1 and not v.keywords and isinstance(v.args[0], ast.Name) and v.args[0].id == lv:
+                    return v
+                v = v.func.value
+            return None
         joins = [n_ for n_ in w.cfg.nodes if n_.kind == 'stmt' and isinstance(n_.ast, ast.Assign) and len(n_.ast.targets) == 1 and isinstance(n_.ast.targets[0], ast.Name)
-                 and isinstance(n_.ast.value, ast.Call) and isinstance(n_.ast.value.func, ast.Attribute) and n_.ast.value.func.attr == 'join'
-                 and isinstance(n_.ast.value.func.value, ast.Constant) and len(n_.ast.value.args) == 1 and isinstance(n_.ast.value.args[0], ast.Name) and n_.ast.value.args[0].id == lv]
+                 and join_of(n_.ast.value) is not None]
         if len(joins) != 1:
             raise Undecided(f'write(): the piece list `{lv}` is not joined exactly once')
-        consts.append(str(joins[0].ast.value.func.value.value))  # type: ignore[union-attr]
+        consts.append(str(join_of(joins[0].ast.value).func.value.value))  # type: ignore[union-attr]
+        joined_at = joins[0]
         for n_, a_ in pieces:
             assert a_ is not None
             harvest(a_, n_)
         node = joins[0]
         lv = node.ast.targets[0].id  # type: ignore[union-attr]
-    first_write = [n for n in w.cfg.nodes if any(_uses_file(c, ps[0]) and any(isinstance(x, ast.Name) and x.id == lv for x in _written_exprs(c)) for c in L.node_calls(n))]
+    if in_write:
+        first_write = [n for n in w.cfg.nodes if any(_uses_file(c, ps[0]) and any(isinstance(x, ast.Name) and x.id == lv for x in _written_exprs(c)) for c in L.node_calls(n))]
+    else:
+        # the line is formed by a helper method of the element: what it returns is what write() hands to the file
+        first_write = [n for n in w.cfg.nodes if n.kind == 'stmt' and isinstance(n.ast, ast.Return) and n.ast.value is not None
+                       and any(isinstance(x, ast.Name) and x.id == lv for x in ast.walk(n.ast.value))]
     if not first_write:
         raise Undecided('write(): the build line local is not written to the file')
     # all definitions of the line variable that reach its write, except rewrites of the finished line (replace / split on Windows)
@@ -2544,8 +2702,8 @@ def r8(ctx: RuleCtx) -> None:
     for d in w.defs().get(lv, []):
         if d.node.id not in region or not any(fw.id in w.cfg.reachable([d.node], fresh_defs, include_start=True) for fw in first_write):
             continue
-        if d.value is None:
-            continue
+        if d.value is None or (joined_at is not None and d.node.id == joined_at.id):
+            continue        # (the join of the piece list: its pieces were harvested above)
         if any(isinstance(x, ast.Name) and x.id == lv for x in ast.walk(d.value)) and d.kind == 'assign':
             continue        # line = f(line): a rewrite of the whole line, no new separator is introduced by constants we could attribute
         harvest(d.value, d.node)
@@ -2573,7 +2731,12 @@ def r8(ctx: RuleCtx) -> None:
                     v = fold_expr(ctx.repo, mod, x)
                 except Exception:
                     continue
-                if not isinstance(v, Regex):
+                if isinstance(v, dict) and v and all(isinstance(k_, int) for k_ in v):
+                    # a str.translate table: the characters mapped to '$' + themselves are the escaped ones (same role as the character class of the pattern)
+                    if isinstance(x, ast.Call) and not (call_name(x) or '').endswith('maketrans'):
+                        continue
+                    v = _EscapeTable(frozenset(chr(k_) for k_, t_ in v.items() if t_ == '$' + chr(k_)))
+                elif not isinstance(v, Regex):
                     continue
                 allre.append(v.pattern)
                 par = pmq.get(x)
@@ -2589,7 +2752,7 @@ def r8(ctx: RuleCtx) -> None:
                             pats.append(v.pattern)
     if not pats and len(set(allre)) == 1:
         pats = [allre[0]]
-    pats = sorted(set(pats))
+    pats = sorted(set(pats), key=repr)
     if len(pats) != 1:
         raise Undecided(f'{quoter}: the regular expression used for build lines was not found ({len(pats)} candidates)')
     rejected = set()
@@ -2611,7 +2774,7 @@ def r8(ctx: RuleCtx) -> None:
         if ch == '$':
             continue
         nsep += 1
-        esc = rx.matches_char(pats[0], ch)
+        esc = (ch in pats[0].chars) if isinstance(pats[0], _EscapeTable) else rx.matches_char(pats[0], ch)
         ctx.require(esc or ch in rejected, f'separator {ch!r} of the build line is {"escaped" if esc else "rejected"} by {quoter}', mod, quoter, f'separator {ch!r}',
                     f'write() separates the paths of a build statement with {ch!r}, but {quoter}(.., is_build_line=True) neither escapes {ch!r} (pattern {pats[0]!r}) nor rejects a '
                     f'path that contains it: an output or input name with {ch!r} is written verbatim and read by ninja as a separator', qf)
@@ -3027,9 +3190,10 @@ def r12(ctx: RuleCtx) -> None:
     for q, f in funcs.items():
         ps = _param_names(f)
         for c in _own_calls(f):
-            if not _is_ctor(c, ELEMENT):
+            ca_ = _construction_args(mod, c)
+            if ca_ is None:
                 continue
-            oe = _elem_args(mod, c).get('outfilenames')
+            oe = ca_.get('outfilenames')
             if oe is None:
                 continue
             info = infos.get(q)
@@ -3247,9 +3411,10 @@ def r13(ctx: RuleCtx) -> None:
     for q, f in funcs.items():
         ps = _param_names(f)
         for c in _own_calls(f):
-            if not _is_ctor(c, ELEMENT):
+            ca_ = _construction_args(mod, c)
+            if ca_ is None:
                 continue
-            oe = dict.get(_elem_args(mod, c), 'outfilenames')
+            oe = dict.get(ca_, 'outfilenames')
             if oe is None or isinstance(oe, ast.Constant):
                 continue
             info = infos.get(q)
@@ -3405,7 +3570,7 @@ def r14(ctx: RuleCtx) -> None:
         h = hidden_test(facts, v)
         if h is not None:
             raise Undecided(f'{qn}: the raw path `{short(v, 40)}` is recorded under `{short(h, 60)}`, which may test its existence in a form the rule does not read')
-        ctx.violation(mod, qn, 'raw command-line path recorded as an implicit dependency without an existence test',
+        ctx.violation(mod, cur[0].qn, 'raw command-line path recorded as an implicit dependency without an existence test',
                       f'`{short(construct, 70)}` records the path `{short(v, 40)}` taken from the link command line as an implicit input of the link statement although no '
                       f'dominating condition tests that the file exists (os.path.isfile / os.path.exists / Path.is_file): no statement produces an external library, so a path '
                       'that is absent at configure time is a dangling input', construct)
@@ -3413,46 +3578,67 @@ def r14(ctx: RuleCtx) -> None:
 
     nraw = 0
     delegated: T.List[str] = []
-    seen: T.Set[str] = set()
-    for rn in rets:
-        for pe in parts(rn.ast.value):  # type: ignore[union-attr]
+    seen: T.Set[T.Tuple[str, str]] = set()
+    cur: T.List[L.FnInfo] = [info]
+
+    def scan(fi: L.FnInfo, rn: Node, value: ast.AST, depth: int) -> None:
+        """the parts of one returned expression of `fi`; a local that is component i of the tuple a backend method returns is read in that method"""
+        nonlocal nraw
+        cur[0] = fi
+        for pe in parts(value):
             if isinstance(pe, ast.List) and len(pe.elts) == 1 and not hasattr(pe, 'lineno'):
-                nraw += judge(rn, rn.ast, pe.elts[0], _dominating_facts(info, rn), L.inline_locals(info, pe.elts[0], rn))  # type: ignore[arg-type]
+                nraw += judge(rn, rn.ast, pe.elts[0], _dominating_facts(fi, rn), L.inline_locals(fi, pe.elts[0], rn))
                 continue
             if not isinstance(pe, ast.Name):
                 if isinstance(pe, ast.Call):
                     ctx.note(f'`{short(pe, 50)}` is returned from a helper call: not examined here')
                     delegated.append(short(pe, 60))
                     continue
-                raise Undecided(f'{qn}: returned part `{short(pe, 60)}` is not a local list')
-            if pe.id in seen:
+                raise Undecided(f'{fi.qn}: returned part `{short(pe, 60)}` is not a local list')
+            if (fi.qn, pe.id) in seen:
                 continue
-            seen.add(pe.id)
-            for d in info.base_defs(pe.id, rn):
+            seen.add((fi.qn, pe.id))
+            for d in fi.base_defs(pe.id, rn):
                 if not isinstance(d, L.Def) or d.value is None:
-                    raise Undecided(f'{qn}: the returned list `{pe.id}` is not created in the function')
+                    raise Undecided(f'{fi.qn}: the returned list `{pe.id}` is not created in the function')
                 dv = d.value
+                if d.kind == 'unpack':
+                    hq = f'{BACKEND}.{(call_name(dv) or "")[5:]}' if isinstance(dv, ast.Call) and (call_name(dv) or '').startswith('self.') and (call_name(dv) or '').count('.') == 1 else None
+                    if hq is None or not mod.has_func(hq) or d.index is None or depth >= 2:
+                        raise Undecided(f'{fi.qn}: the returned list `{pe.id}` is a component of `{short(dv, 50)}`, a form the rule does not read')
+                    hi = _infos(ctx).get(hq)
+                    hrets = [n_ for n_ in hi.cfg.nodes if n_.kind == 'stmt' and isinstance(n_.ast, ast.Return)]
+                    if not hrets or any(not isinstance(n_.ast.value, ast.Tuple) or len(n_.ast.value.elts) <= d.index or any(isinstance(x, ast.Starred) for x in n_.ast.value.elts)  # type: ignore[union-attr]
+                                        for n_ in hrets) or any(isinstance(x, (ast.Yield, ast.YieldFrom)) for x in walk_no_nested(hi.fn, include_root=False)):
+                        raise Undecided(f'{hq}: does not return a tuple display with component {d.index} on every return')
+                    for n_ in hrets:
+                        scan(hi, n_, n_.ast.value.elts[d.index], depth + 1)  # type: ignore[union-attr]
+                    cur[0] = fi
+                    continue
                 if (isinstance(dv, ast.List) and not dv.elts) or (isinstance(dv, ast.Call) and call_name(dv) in ('list', 'OrderedSet', 'set') and not dv.args):
                     continue
                 if isinstance(dv, (ast.ListComp, ast.SetComp)) and len(dv.generators) == 1 and isinstance(dv.generators[0].target, ast.Name):
-                    facts = [f for cond in dv.generators[0].ifs for f in _edge_facts(cond, True)] + _dominating_facts(info, d.node)
+                    facts = [f for cond in dv.generators[0].ifs for f in _edge_facts(cond, True)] + _dominating_facts(fi, d.node)
                     nraw += judge(d.node, dv, dv.elt, facts, dv.elt)
                     continue
                 if isinstance(dv, ast.Call) and (call_name(dv) or '').startswith('self.'):
                     ctx.note(f'`{pe.id}` starts as `{short(dv, 50)}`: resolved by a helper, not examined here')
                     delegated.append(short(dv, 60))
                     continue
-                raise Undecided(f'{qn}: the returned list `{pe.id}` starts as `{short(dv, 60)}`, a form the rule does not read')
-            for n, c, a in info.additions(pe.id):
+                raise Undecided(f'{fi.qn}: the returned list `{pe.id}` starts as `{short(dv, 60)}`, a form the rule does not read')
+            for n, c, a in fi.additions(pe.id):
                 if a is None:
                     args = c.args if isinstance(c, ast.Call) else [getattr(c, 'value', None)]
                     if args and isinstance(args[0], ast.Call) and (call_name(args[0]) or '').startswith('self.'):
                         ctx.note(f'`{short(c, 60)}` adds the result of a helper: not examined here')
                         delegated.append(short(c, 60))
                         continue
-                    raise Undecided(f'{qn}: `{short(c, 60)}` adds to the returned list in a form the rule does not itemise')
+                    raise Undecided(f'{fi.qn}: `{short(c, 60)}` adds to the returned list in a form the rule does not itemise')
                 var = a.id if isinstance(a, ast.Name) else None
-                nraw += judge(n, c, a, _dominating_facts(info, n, var), L.inline_locals(info, a, n))
+                nraw += judge(n, c, a, _dominating_facts(fi, n, var), L.inline_locals(fi, a, n))
+
+    for rn in rets:
+        scan(info, rn, rn.ast.value, 0)  # type: ignore[union-attr]
     if nraw == 0 and delegated:
         raise Undecided(f'{qn}: no raw path is added to the returned dependencies in this function itself; `{delegated[0]}` may do it in a form the rule does not read')
     ctx.floor('raw command-line paths recorded as implicit link dependencies', nraw, 1)
